@@ -24,61 +24,70 @@ func c51StubInt63n(r *mathrand.Rand, n int64) int64 {
 
 const c51Base = 1700000000 // seconds since the epoch; all instants are base + offset
 
-func c51Time(maxSec int64) time.Time {
+// c51Time returns an instant base + s seconds + ns nanoseconds together with its offset from the
+// base in nanoseconds (the harness' own integer time line: no time.Time arithmetic in the oracle).
+func c51Time(maxSec int64) (time.Time, int64) {
 	s := verifrt.I64()
-	ns := verifrt.I64()
-	verifrt.Assume(s >= 0 && s <= maxSec && ns >= 0 && ns < 1000000000)
-	return time.Unix(c51Base+s, ns)
+	// 30 structurally-bounded bits, so that the wall-clock word of time.Time keeps its flag bits
+	// constant zero (the bit tricks of time.Add then fold away and the queries stay arithmetic)
+	ns := int64(verifrt.U32() & 0x3fffffff)
+	verifrt.Assume(s >= 0)
+	verifrt.Assume(s <= maxSec)
+	verifrt.Assume(ns < 1000000000)
+	return time.Unix(c51Base+s, ns), s*1000000000 + ns
 }
 
 // c51Next: domainRenewal.next for arbitrary certificate validity [notBefore, notAfter], clock and
 // RenewBefore: never panics, returns a delay >= 0, and when positive places the renewal inside
 // the documented window [notAfter - threshold, notAfter - threshold + jitterMax) relative to now,
 // where threshold = RenewBefore capped at 30 days (or a third of the lifetime, same cap) and
-// jitterMax = min(threshold/10, 1h).
+// jitterMax = min(threshold/10, 1h). The oracle works on integer nanosecond offsets.
 func c51Next(maxSec int64, rb time.Duration) {
-	notBefore := c51Time(maxSec)
-	notAfter := c51Time(maxSec)
-	now := c51Time(maxSec)
-	// certificates served by the manager satisfy NotBefore <= now <= NotAfter (validCert)
-	verifrt.Assume(!notAfter.Before(notBefore))
+	notBefore, nb := c51Time(maxSec)
+	notAfter, na := c51Time(maxSec)
+	now, nw := c51Time(maxSec)
+	// certificates served by the manager satisfy NotBefore <= NotAfter (validCert)
+	verifrt.Assume(nb <= na)
 	m := &Manager{RenewBefore: rb, nowFunc: func() time.Time { return now }}
 	dr := &domainRenewal{m: m}
 	var d time.Duration
 	p := verifrt.Panics(func() { d = dr.next(notBefore, notAfter) })
 	verifrt.Assert(!p, "renewal scheduler does not panic")
 	verifrt.Assert(d >= 0, "renewal delay is non-negative")
-	life := notAfter.Sub(notBefore)
-	threshold := life / 3
+	threshold := (na - nb) / 3
 	if rb > 0 {
-		threshold = rb
+		threshold = int64(rb)
 	}
-	if threshold > 30*24*time.Hour {
-		threshold = 30 * 24 * time.Hour
+	if threshold > int64(30*24*time.Hour) {
+		threshold = int64(30 * 24 * time.Hour)
 	}
 	jmax := threshold / 10
-	if jmax > time.Hour {
-		jmax = time.Hour
+	if jmax > int64(time.Hour) {
+		jmax = int64(time.Hour)
 	}
 	if d > 0 {
 		verifrt.Reach("positive-delay")
-		at := now.Add(d) // the instant renewal starts
-		early := notAfter.Add(-threshold)
-		verifrt.Assert(!at.Before(early), "renewal not earlier than notAfter - threshold")
-		verifrt.Assert(at.Before(early.Add(jmax)) || (jmax == 0 && at.Equal(early)), "renewal within the jitter window")
-		verifrt.Assert(!at.After(notAfter), "renewal not after expiry")
+		at := nw + int64(d) // the instant renewal starts
+		early := na - threshold
+		verifrt.Assert(at >= early, "renewal not earlier than notAfter - threshold")
+		verifrt.Assert(at < early+jmax || at == early, "renewal within the jitter window")
+		verifrt.Assert(at <= na, "renewal not after expiry")
 	} else {
 		verifrt.Reach("zero-delay")
+		verifrt.Assert(nw >= na-threshold, "zero delay only when the renewal window has been reached")
 	}
 }
 
-// Verif_C51_NextDefault: RenewBefore unset, instants within 2^24 s (194 days) of a base, all
+// Verif_C51_NextDefault: RenewBefore unset, instants within 2^22 s (48 days) of a base, all
 // nanosecond offsets (lifetimes from 0 ns up).
-func Verif_C51_NextDefault() { c51Next(1<<24, 0) }
+func Verif_C51_NextDefault() { c51Next(1<<22, 0) }
+
+// Verif_C51_NextDefaultT: as above with instants within 2^26 s (2.1 years).
+func Verif_C51_NextDefaultT() { c51Next(1<<26, 0) }
 
 // Verif_C51_NextRenewBefore: RenewBefore ranges over ALL positive int64 durations.
 func Verif_C51_NextRenewBefore() {
 	rb := time.Duration(verifrt.I64())
 	verifrt.Assume(rb > 0)
-	c51Next(1<<24, rb)
+	c51Next(1<<22, rb)
 }
